@@ -204,6 +204,7 @@ def run(ck):
 
     narrowing_len_sweep(ck, crate("rs", "concordium_base"), re.compile(r"concordium_base::(ps_sig|aggregate_sig|ecvrf)"), re.compile(r"(verify|check)[a-z_0-9]*(::\\{closure#\\d+\\})*$"))
 
+    eq_polarity_sweep(ck, crate("rs", "concordium_base"), re.compile(r"concordium_base::(ps_sig|aggregate_sig|ecvrf)"), re.compile(r"(verify|check)[a-z_0-9]*(::\\{closure#\\d+\\})*$"))
 
 
 def hash_points_inputs(f, site):
